@@ -1,6 +1,7 @@
 // C03 — block reads and range iteration follow the flat address-space model.
 #include "props/reg_glue.hpp"
 #include <climits>
+#include <set>
 using namespace rg;
 
 // kind 0: block read (addr, n); kind 1: iteration (addr, n, script: stop kind s at k-th call; s 0 never, 1 positive, 2 negative)
@@ -29,6 +30,19 @@ static std::string run_case(const Case &c, std::string &msg) {
     rm::Space m; m.init(c.t); m.mem = c.content;
     lv.copy_from(m);
     vp::count();
+    if (c.kind == 0 && c.n > (1u << 20)) {
+        // a block far larger than any table: some address is unmapped long before a buffer of that size would be needed, so the
+        // request must be refused without touching the (small) caller buffer - also when addr + n wraps around 2^32
+        uint64_t a = c.addr;
+        while (a < (1ull << 32) && m.mapped((uint32_t)a)) a = c.t.areas[(size_t)m.area_of((uint32_t)a)].end();
+        vp::Block buf(64 * 2);
+        RegisterAccess r = register_block_read(&lv.t, c.addr, c.n, (RegisterAtom *)buf.p);
+        if (lv.diff(m) >= 0) { msg = "block read changed the table's storage"; return "read:storage-changed"; }
+        if (r.code == REG_ACCESS_SUCCESS) { msg = vp::fmt("read of %u words from %u succeeded although address %llu is unmapped", c.n, c.addr, (unsigned long long)a); return "read:unmapped-accepted"; }
+        if (r.code != REG_ACCESS_NOENTRY || r.address != (uint32_t)a) { msg = vp::fmt("huge read: reported %s at %u, first unmapped address is %llu", code_name(r.code), r.address, (unsigned long long)a); return "read:wrong-unmapped-report"; }
+        for (size_t i = 0; i < 128; i++) if (buf.p[i] != 0xa5) { msg = "refused read wrote into the caller's buffer"; return "read:refused-but-buffer-written"; }
+        return "";
+    }
     if (c.kind == 0) {
         // caller buffer: 4 canary words, n words, nothing behind (exact-size block => ASan guards the end)
         size_t pre = 4;
@@ -76,18 +90,29 @@ static void run() {
     vp::CaseScope scope([] { return ser_case(g_cur); });
     size_t ntables = (a.thorough() ? 40000 : 3000) / a.nshards;
     vp::stats().rule = vp::fmt("enum: %zu generated valid tables per shard with randomised content; every (address, length) of a window from 2 below the first area to 2 behind the last as block read "
-                               "(exact-size caller buffer with canary words in front) and as iteration range x callback scripts (never stop; positive / negative result at the k-th call for every k)", ntables);
+                               "(exact-size caller buffer with canary words in front) and as iteration range x callback scripts (never stop; positive / negative result at the k-th call for every k); block reads of 2^31..2^32-1 words from every area (must be refused at the first unmapped address without touching the buffer)", ntables);
     vp::Rng rng(a.seed * 9973 + a.shard);
     FamilyOpts fo; fo.max_size = 8;
     FamilyOpts big; big.max_areas = 6; big.max_size = 20; big.max_regs = 12;   // thorough tier: every 8th table is a larger one
+    FamilyOpts wide; wide.huge = 2; wide.many = 2; wide.max_size = 8;             // every 60th table: an area beyond 2^16 words, or 32..70 registers
     for (size_t ti = 0; ti < ntables && !vp::too_many_failures(); ti++) {
-        Case c; c.t = gen_table(rng, (a.thorough() && ti % 8 == 7) ? big : fo);
+        Case c; c.t = gen_table(rng, (ti % 60 == 59) ? wide : (a.thorough() && ti % 8 == 7) ? big : fo);
         rm::Space m; m.init(c.t);
         for (auto &ar : m.mem) for (auto &w : ar) w = (uint16_t)(rng.next() | 1);   // never zero: a zeroed write-only area must be distinguishable
         c.content = m.mem;
         uint32_t lo = c.t.areas.front().base >= 2 ? c.t.areas.front().base - 2 : 0, hi = c.t.areas.back().end() + 2;
-        for (uint32_t addr = lo; addr < hi; addr++)
-            for (uint32_t n = 0; addr + n <= hi; n++) {
+        std::vector<std::pair<uint32_t, uint32_t>> windows;
+        if (hi - lo <= 120) { for (uint32_t addr = lo; addr < hi; addr++) for (uint32_t n = 0; addr + n <= hi; n++) windows.push_back({addr, n}); }
+        else {
+            std::set<std::pair<uint32_t, uint32_t>> ws;
+            auto around = [&](uint32_t center, uint32_t maxn) { for (long d = -2; d <= 2; d++) { long ad = (long)center + d; if (ad < (long)lo || ad >= (long)hi) continue; for (uint32_t n = 0; n <= maxn && (uint32_t)ad + n <= hi; n++) ws.insert({(uint32_t)ad, n}); } };
+            for (auto &ar : c.t.areas) { around(ar.base, 4); around(ar.end(), 4); }
+            for (auto &r : c.t.regs) { around(r.addr, 6); around(r.end(), 3); }
+            for (auto &ar : c.t.areas) { ws.insert({ar.base, ar.size}); if (ar.size > 1) ws.insert({ar.base + 1, ar.size - 1}); ws.insert({lo, hi - lo}); }
+            for (auto &ar : c.t.areas) if (ar.size > 0x10000u) for (uint32_t off : {0u, 1u, 3u}) for (uint32_t n : {0x10000u, 0x10001u, ar.size - off, ar.size - off - 1}) if (off + n <= ar.size + 2) ws.insert({ar.base + off, n});
+            windows.assign(ws.begin(), ws.end());
+        }
+        for (auto &wn : windows) { uint32_t addr = wn.first, n = wn.second; {
                 c.kind = 0; c.addr = addr; c.n = n; c.s = 0; c.k = 0;
                 std::string msg, key = run_case(c, msg);
                 if (!key.empty()) vp::fail(key, msg, ser_case(c));
@@ -99,13 +124,24 @@ static void run() {
                 size_t nov = 0; bool start_in_gap = n > 0, inside_multi = false;
                 for (auto &r : c.t.regs) { if (n && r.end() > addr && r.addr < addr + n) nov++; if (addr >= r.addr && addr < r.end()) { start_in_gap = false; if (addr > r.addr) inside_multi = true; } }
                 for (int s = 0; s < 3; s++) for (unsigned k = (s ? 1 : 0); k <= (s ? (unsigned)nov + 1 : 0u); k++) {
+                    if (nov > 8 && !(k <= 2 || k + 2 >= nov || k == nov / 2)) continue;   // long runs: stop positions at both ends and the middle
                     c.kind = 1; c.s = s; c.k = k;
                     key = run_case(c, msg);
                     if (!key.empty()) vp::fail(key, msg, ser_case(c));
-                    if (vp::want_sample()) vp::sample(ser_case(c));
+                    if (vp::want_sample() && c.content.size() && c.content[0].size() < 400) vp::sample(ser_case(c));
                 }
                 if (nov && (start_in_gap || inside_multi)) { vp::nontrivial(vp::mix(vp::fnv(rm::ser(c.t)), addr * 64 + n + 7777777)); vp::cls(start_in_gap ? "iteration-starts-in-gap-or-hole" : "iteration-starts-inside-multiword-register"); }
+            } }
+        // lengths near 2^31 / 2^32 (address arithmetic on addr + n wraps there)
+        for (auto &ar : c.t.areas) for (uint32_t off : {0u, 1u, 2u, 5u}) {
+            if (off >= ar.size + 2) continue;
+            for (uint32_t n : {0x7fffffffu, 0x80000000u, 0xffffff00u, 0xfffffffau, 0xfffffffbu, 0xfffffffcu, 0xfffffffdu, 0xfffffffeu, 0xffffffffu}) {
+                c.kind = 0; c.addr = ar.base + off; c.n = n; c.s = 0; c.k = 0;
+                std::string msg, key = run_case(c, msg);
+                if (!key.empty()) vp::fail(key, msg, ser_case(c));
+                vp::nontrivial(vp::mix(vp::fnv(rm::ser(c.t)), ((uint64_t)c.addr << 32) | n)); vp::cls("read-length-near-2^32");
             }
+        }
     }
 }
 static bool replay(const std::string &text) {
